@@ -642,7 +642,9 @@ class ConvertValueRe(Contract):
             cap["a"], cap["k"] = list(a), dict(k)
             cap["r"] = I2.fresh("escaped", "str")
             return cap["r"]
-        rx = SObj("RegexArg", {"escape": NativeFn("escape", esc)})
+        # the regular expression object: escape() is the ONLY rendering that applies the backend's escaping (also of the escape character itself)
+        rx = SObj("RegexArg", {"escape": NativeFn("escape", esc), "flags": set(), "contains_placeholder": NativeFn("cp", lambda I2, a, k: False),
+                               "regexp": SObj("Pattern", {"__str__": NativeFn("__str__", lambda I2, a, k: I2.fresh("unescaped_pattern_text", "str"))})})
         f = {"re_escape": I.fresh("re_escape", "opaque", "StrTuple"), "re_escape_char": I.fresh("re_escape_char", "str"), "re_escape_escape_char": I.fresh("re_escape_escape_char", "bool"),
              "re_flag_prefix": I.fresh("re_flag_prefix", "bool")}
         me = SObj(I.E.index.lookup(f"{CB}:TextQueryBackend"), dict(f), lazy=True)
